@@ -10,7 +10,7 @@ open St4sd.Restart St4sd.Gen
 
 /-- component that lists SubmissionFailed in restartHookOn (accepted by the schema) -/
 def cfgListsSF : Cfg := ⟨none, false, [.submissionFailed], false, false, .scripted⟩
-def subFailed : Inp := ⟨.submissionFailed, .ctx .possible, false, false, true⟩
+def subFailed : Inp := ⟨.submissionFailed, .ctx .possible, false, false, true, .task⟩
 
 /-- Six consecutive failed submissions are all answered by RestartInitiated: the cap of five is never
 consulted (`resubmission_cap` is false of the old order) … -/
@@ -30,7 +30,7 @@ theorem new_order_caps :
 
 /-- repeating component with `maxRestarts: 0` -/
 def cfgRepeatingZero : Cfg := ⟨some 0, false, [.resourceExhausted], false, true, .fallback⟩
-def exhausted (stable : Bool) : Inp := ⟨.resourceExhausted, .junk, false, false, stable⟩
+def exhausted (stable : Bool) : Inp := ⟨.resourceExhausted, .junk, false, false, stable, .none⟩
 
 /-- `RepeatingEngine.restart` never reads maxRestarts: one restart although the maximum is zero
 (`restarts_le_max` is false of the old code) -/
@@ -48,5 +48,22 @@ theorem old_repeating_restarts_unlisted :
     Reason.resourceExhausted ∉ cfgRepeatingUnlisted.hookOn ∧
     (execOld false cfgRepeatingUnlisted St.init [exhausted false]).map (·.code) = [.initiated] ∧
     (exec false cfgRepeatingUnlisted St.init [exhausted false]).map (·.code) = [.notRequired] := by decide
+
+/-- If the streak of failed submissions were ended by the creation of a Task object (reset in `SetLaunchTime`)
+instead of by a successful task, tasks that are created fine and then REPORT SubmissionFailed would be
+re-submitted without bound: seven in a row are all answered by RestartInitiated, the counter never passes 1
+(`resubmissions_without_success_le_cap` is false of that variant) … -/
+theorem reset_at_creation_exceeds_cap :
+    (execGen arriveResetAtCreation ctrlRestart true ⟨none, false, [.knownIssue], false, false, .scripted⟩ St.init
+        (List.replicate 7 subFailed)).all Ev.isResub = true ∧
+    (finalGen arriveResetAtCreation ctrlRestart true ⟨none, false, [.knownIssue], false, false, .scripted⟩ St.init
+        (List.replicate 7 subFailed)).resub = 1 := by decide
+
+/-- … while the code as it is refuses the sixth and finalises the component -/
+theorem reset_on_success_caps :
+    (exec true ⟨none, false, [.knownIssue], false, false, .scripted⟩ St.init (List.replicate 7 subFailed)).map
+      (fun e => (e.code, e.st.shutdown)) =
+      [(.initiated, false), (.initiated, false), (.initiated, false), (.initiated, false), (.initiated, false),
+       (.maxAttemptsExceeded, true), (.maxAttemptsExceeded, true)] := by decide
 
 end St4sd.C12.Witness
